@@ -155,6 +155,7 @@ var SelftestReverts = map[string][]string{
 	"C15": {"revert_F10.diff"},
 	"C35": {"revert_F11.diff"},
 	"C01": {"revert_F12.diff"},
+	"C03": {"revert_F16.diff"},
 	"C41": {"revert_F13.diff", "revert_F14.diff", "revert_F15.diff"},
 	"C56": {"revert_F6.diff", "revert_F7.diff", "revert_F8.diff", "revert_F9.diff"},
 }
